@@ -1486,7 +1486,8 @@ class Model(Object):
         new_cons = [
             interface.Constraint.clone(c, model=new_model.solver)
             for c in right.constraints
-            if c.name not in new_model.constraints
+            # the mass balances of the metabolites are handled by add_reactions
+            if c.name not in new_model.constraints and c.name not in right.metabolites
         ]
         new_model.add_cons_vars(new_cons, sloppy=True)
         new_model.objective = dict(
